@@ -28,7 +28,7 @@ def search_durations(job):
     from bounded import c14_datetime as D
     for style in (0, 1, 2):
         for ms in (0, 1000, 60000, 3600000, 86400000, 604800000, 1209600000, 694861001, 90061001, 59999, 3599999):
-            for (lg, sm, auto) in ((1, 32, True), (1, 32, False), (2, 16, False), (4, 8, False), (16, 32, False)):
+            for (lg, sm, auto) in [(1, 32, True)] + [(a, b, False) for a in (1, 2, 4, 8, 16, 32) for b in (1, 2, 4, 8, 16, 32) if a <= b]:
                 try:
                     err = D.check_duration(ms, style, lg, sm, auto)
                 except Exception as e:  # noqa: BLE001
